@@ -42,10 +42,15 @@ aside.txt
 copy.txt
 :
 note.txt
+refrain.txt
 :
-mycat2
+mycat
 note.txt
 aside.txt
+;
+mycat
+note.txt
+refrain.txt
 copy.txt
 :
 
@@ -90,11 +95,11 @@ impl Printer for RecordingPrinter
 }
 /*  (targets, first line of the command) of the five rules */
 const RULE_CMDS : [(&[&str], &str); 5] = [
-    (&["stanza.txt"], "mycat verse.txt stanza.txt"), (&["poem.txt"], "mycat stanza.txt refrain.txt poem.txt"), (&["aside.txt", "copy.txt"], "mycat2 note.txt aside.txt copy.txt"),
+    (&["stanza.txt"], "mycat verse.txt stanza.txt"), (&["poem.txt"], "mycat stanza.txt refrain.txt poem.txt"), (&["aside.txt", "copy.txt"], "mycat note.txt aside.txt"),
     (&["song.txt"], "mycat refrain.txt verse.txt song.txt"), (&["album.txt"], "mycat song.txt note.txt album.txt")];
 
 #[derive(Clone, Copy, Debug, PartialEq)]
-enum Act { VerseA, VerseB, RefrainS, Build, BuildPoem, Clean, CleanStanza, TamperStanza, DeleteStanza, DropCacheEntryOfStanza, HiddenGone, HiddenBack, NoteLikeVerseA, CleanAside, SwapVerseRefrain, DropSongRules }
+enum Act { VerseA, VerseB, RefrainS, Build, BuildPoem, Clean, CleanStanza, TamperStanza, DeleteStanza, DropCacheEntryOfStanza, HiddenGone, HiddenBack, NoteLikeVerseA, CleanAside, SwapVerseRefrain, DropSongRules, DeleteAside, NoteP, NoteN, StashStanza, UnstashStanza }
 const ACTS : [Act; 12] = [Act::VerseA, Act::VerseB, Act::RefrainS, Act::Build, Act::BuildPoem, Act::Clean, Act::CleanStanza, Act::TamperStanza, Act::DeleteStanza, Act::DropCacheEntryOfStanza, Act::HiddenGone, Act::HiddenBack];
 
 fn params(goal: Option<&str>) -> BuildParams { BuildParams::from_all(".ruler".to_string(), vec!["build.rules".to_string()], None, goal.map(|s| s.to_string())) }
@@ -107,7 +112,7 @@ fn stat(system: &FakeSystem, p: &str) -> Option<(String, std::time::SystemTime, 
     if !system.is_file(p) { return None; }
     Some((read_file_to_string(system, p).ok()?, system.get_modified(p).ok()?, system.is_executable(p).ok()?))
 }
-const UNTOUCHABLE : [&str; 6] = ["verse.txt", "refrain.txt", "note.txt", "hidden.txt", "build.rules", "undeclared.txt"];
+const UNTOUCHABLE : [&str; 8] = ["verse.txt", "refrain.txt", "note.txt", "hidden.txt", "build.rules", "undeclared.txt", "stanza.txt.tmp", "poem.txt.tmp"];
 const OUT_OF_POEM_SCOPE : [&str; 4] = ["aside.txt", "copy.txt", "song.txt", "album.txt"];
 const OUT_OF_STANZA_SCOPE : [&str; 5] = ["poem.txt", "aside.txt", "copy.txt", "song.txt", "album.txt"];
 /*  contents held at target paths or in the cache */
@@ -145,11 +150,15 @@ fn run_history(h: &Vec<Act>, drop_table: bool) -> Outcome
     write_str_to_file(&mut system, "note.txt", "N.B.\n").unwrap();
     write_str_to_file(&mut system, "hidden.txt", "(hidden)\n").unwrap();
     write_str_to_file(&mut system, "undeclared.txt", "not mentioned in any rule\n").unwrap();
+    /*  undeclared files next to targets, named like temporaries */
+    write_str_to_file(&mut system, "stanza.txt.tmp", "my notes on the stanza\n").unwrap();
+    write_str_to_file(&mut system, "poem.txt.tmp", "my notes on the poem\n").unwrap();
     /*  C02 bookkeeping for the chain rule stanza.txt <- verse.txt: the verse it was last successfully built from */
     let mut stanza_settled : Option<String> = None;
     let mut complaints = vec![]; let mut verdicts = vec![];
     let mut last_was_ok_build = false; let mut last_was_clean_after_ok_build = false;
     let mut reduced = false;      /*  song.txt / album.txt no longer have rules */
+    let mut seen_ok : BTreeSet<(String, String, String)> = BTreeSet::new();      /*  source states built successfully since the last disturbance */
     for a in h.iter()
     {
         system.time_passes(1);
@@ -164,6 +173,12 @@ fn run_history(h: &Vec<Act>, drop_table: bool) -> Outcome
             Act::VerseB => { write_str_to_file(&mut system, "verse.txt", "Violets are blue.\n").unwrap(); },
             Act::RefrainS => { write_str_to_file(&mut system, "refrain.txt", "Sha la la.\n").unwrap(); },
             Act::NoteLikeVerseA => { write_str_to_file(&mut system, "note.txt", "Roses are red.\n").unwrap(); },
+            Act::DeleteAside => { if system.is_file("aside.txt") { system.remove_file("aside.txt").unwrap(); } },
+            Act::NoteP => { write_str_to_file(&mut system, "note.txt", "P.S.\n").unwrap(); },
+            Act::NoteN => { write_str_to_file(&mut system, "note.txt", "N.B.\n").unwrap(); },
+            /*  the user moves a target aside and later back: the file that comes back is OLDER than what ruler remembers for that path */
+            Act::StashStanza => { if system.is_file("stanza.txt") { system.rename("stanza.txt", "stanza.old").unwrap(); } },
+            Act::UnstashStanza => { if system.is_file("stanza.old") { system.rename("stanza.old", "stanza.txt").unwrap(); } stanza_settled = None; },
             /*  two sources of one rule trade contents (the same multiset of source hashes, in another order) */
             Act::SwapVerseRefrain =>
             {
@@ -265,21 +280,34 @@ fn run_history(h: &Vec<Act>, drop_table: bool) -> Outcome
                     }
                 }
                 if read(&system, "stanza.txt") == read(&system, "verse.txt") && (ok || goal.is_none()) { stanza_settled = read(&system, "verse.txt"); }
-                /*  aside.txt and copy.txt have identical contents: after a clean one cache file cannot serve both restores, so that
-                    rule may legitimately run again (C02 exempts it); only the other rules are held to "no command" */
-                let ran = system.get_command_log()[log_before..].iter().filter(|c| !c.starts_with("mycat2")).count();
-                let _ = ran;
+                /*  C02 speaks of targets whose contents are pairwise different (one cache file cannot serve two restores) */
+                let ran = system.get_command_log()[log_before..].len();
+                let distinct =
+                {
+                    let (v, r, n) = (read(&system, "verse.txt").unwrap(), read(&system, "refrain.txt").unwrap(), read(&system, "note.txt").unwrap());
+                    let mut all = vec![v.clone(), format!("{}{}", v, r), n.clone(), format!("{}{}", n, r)];
+                    if !reduced { all.push(format!("{}{}", r, v)); all.push(format!("{}{}{}", r, v, n)); }
+                    let k = all.len(); all.sort(); all.dedup(); all.len() == k
+                };
+                let state = (read(&system, "verse.txt").unwrap(), read(&system, "refrain.txt").unwrap(), read(&system, "note.txt").unwrap());
                 if ok
                 {
                     /*  C01: from-scratch outputs of the current sources */
                     let verse = read(&system, "verse.txt").unwrap(); let refrain = read(&system, "refrain.txt").unwrap(); let note = read(&system, "note.txt").unwrap();
                     let mut expect = vec![("stanza.txt", verse.clone()), ("poem.txt", format!("{}{}", verse, refrain))];
-                    if goal.is_none() { expect.push(("aside.txt", note.clone())); expect.push(("copy.txt", note.clone())); if !reduced { expect.push(("song.txt", format!("{}{}", refrain, verse))); expect.push(("album.txt", format!("{}{}{}", refrain, verse, note))); } }
+                    if goal.is_none() { expect.push(("aside.txt", note.clone())); expect.push(("copy.txt", format!("{}{}", note, refrain))); if !reduced { expect.push(("song.txt", format!("{}{}", refrain, verse))); expect.push(("album.txt", format!("{}{}{}", refrain, verse, note))); } }
                     for (p, want) in expect.iter()
                     {
                         if read(&system, p).as_ref() != Some(want) { complaints.push(("B-build-C01".to_string(), format!("after a successful build {} holds {:?}, a from-scratch build gives {:?}", p, read(&system, p), want))); }
                     }
-                    if (last_was_ok_build || last_was_clean_after_ok_build) && goal.is_none() && ran != 0
+                    /*  C02, general form: these very sources were built successfully before, nothing was tampered with, deleted or
+                        dropped from the cache since: everything is up to date or comes back from the cache, no command runs */
+                    if goal.is_none() && distinct && seen_ok.contains(&state) && ran != 0 && !(last_was_ok_build || last_was_clean_after_ok_build)
+                    {
+                        complaints.push(("B-build-C02".to_string(), format!("{} command(s) ran although these very sources were built before and nothing was disturbed since (everything needed is on disk or in the cache)", ran)));
+                    }
+                    if goal.is_none() { seen_ok.insert(state.clone()); }
+                    if (last_was_ok_build || last_was_clean_after_ok_build) && goal.is_none() && distinct && ran != 0
                     {
                         complaints.push(("B-build-C02".to_string(), format!("{} command(s) ran in a build that follows a successful build{} with nothing changed", ran, if last_was_clean_after_ok_build { " and a clean" } else { "" })));
                     }
@@ -315,8 +343,13 @@ fn run_history(h: &Vec<Act>, drop_table: bool) -> Outcome
             }
             if let Some(c) = cache_ok(&system) { complaints.push(("B-build-C07".to_string(), c)); }
             let after = held(&system);
-            /*  contents overwritten by a command that ran are the command's doing; everything else must survive */
-            for c in before.iter() { if !after.contains(c) && system.get_command_log().len() == log_before { complaints.push(("B-build-C08".to_string(), format!("content {:?} was held before the invocation and is gone", c))); } }
+            /*  ruler moves a target out of the way before a command may overwrite it: whatever was held before is still held */
+            for c in before.iter() { if !after.contains(c) { complaints.push(("B-build-C08".to_string(), format!("content {:?} was held before the invocation and is gone", c))); } }
+        }
+        match a
+        {
+            Act::TamperStanza | Act::DeleteStanza | Act::DeleteAside | Act::DropCacheEntryOfStanza | Act::HiddenGone | Act::HiddenBack | Act::DropSongRules | Act::StashStanza | Act::UnstashStanza | Act::NoteLikeVerseA => seen_ok.clear(),
+            _ => {},
         }
         match a
         {
@@ -392,6 +425,10 @@ fn verif_build_long_histories()
         vec![Build, SwapVerseRefrain, Build, SwapVerseRefrain, Build],
         vec![Build, DropSongRules, Build],
         vec![Build, DropSongRules, Build, Clean, Build],
+        vec![Build, DeleteAside, NoteP, Build, NoteN, Build, NoteP, Build],
+        vec![Build, StashStanza, VerseB, Build, UnstashStanza, Build],
+        vec![Build, DeleteAside, Clean],
+        vec![Build, DeleteAside, Clean, Build],
     ];
     let names = ["B-build-C01", "B-build-C02", "B-build-C04", "B-build-C07", "B-build-C08", "B-build-C09", "B-build-C10", "B-build-C18", "B-build-C20"];
     let mut bad = vec![0u64; names.len()];
